@@ -228,6 +228,39 @@ func runC04(ctx *h.Ctx) int {
 		}
 		k.Sample("full-program", pr.Src)
 	})
+	// names that differ only by trailing digits (Foo1 / Foo11 / Foo2), each script with two-digit chunk ids:
+	// sub-labels of different scripts must never coincide or be confused
+	ctx.RunCases("digit-suffixed-names", ctx.N(400, 20000), func(k *h.Case) {
+		g := spec.NewGen(k.R, profC01())
+		base := g.Name("Town")
+		for _, suf := range []string{"1", "11", "2", "12", "111"}[:2+k.R.IntN(4)] {
+			body := manyChunkBody(g, 9+k.R.IntN(8))
+			if k.R.IntN(2) == 0 {
+				body.Stmts = append(body.Stmts, g.ScriptBody(base+suf).Stmts...)
+			}
+			g.Prog.Items = append(g.Prog.Items, &spec.Script{ID: g.Prog.NewID(), Name: base + suf, Body: body})
+		}
+		k.R.Shuffle(len(g.Prog.Items), func(i, j int) { g.Prog.Items[i], g.Prog.Items[j] = g.Prog.Items[j], g.Prog.Items[i] })
+		prog := g.Prog
+		src := spec.Source(prog)
+		k.SetSource(src)
+		for _, opt := range []bool{true, false} {
+			res := h.Compile(src, optsOf(prog, opt))
+			k.Count("evaluations", 1)
+			if !res.OK() {
+				k.Count("rejected", 1)
+				k.Count("rejected: "+rejectFamily(res.ErrString()), 1)
+				return
+			}
+			k.Count("accepted", 1)
+			tag := fmt.Sprintf("digit-suffixed names, optimize=%v", opt)
+			if !closedCheck(k, prog, res.Out, tag) || !vmCheck(k, prog, res.Out, vmCheckOpts{NStates: 6, Cands: g.Cands()}, tag) {
+				return
+			}
+		}
+		k.Count("digit_suffixed_files_checked", 1)
+		k.Nontrivial("digits", len(prog.Items), len(src)/200)
+	})
 	rejectGuard(ctx, 0.35)
 	return ctx.Finish(
 		"whole files mixing scripts, text, movement, mart, mapscripts (plain/inline/table), raw, inline text/moves(), poryswitch, AutoVar conditions; with extra weight on labels in unreachable code. Oracle on each output (optimize on and off): every label defined once; every generated jump/case/map-script/hoisted-argument label defined (author-written goto and plain map-script targets may be external); every label statement present once inside its own script; last instruction of every script is return/end/goto; VM runs never fall out of a script, never hit an undefined label. distinct = distinct script body signature",
